@@ -3,6 +3,7 @@ import importlib
 
 # property -> list of (rule module, configs it needs in quick tier)
 PROPERTY_RULES = {
+    "C01": ["r_a10", "r_a9", "r_a8", "r_a2", "r_o3"],
     "C02": ["r_a6", "r_e1", "r_b1"],
     "C03": ["r_a2", "r_a3"],
     "C04": ["r_a8", "r_e1", "r_a6"],
@@ -22,6 +23,9 @@ PROPERTY_RULES = {
 LEVEL = {"C14": "proof"}
 
 CLAUSES = {
+    "C01": "no API of Bytes can write its bytes; every place where the crate moves bytes or re-bases a view does it in the only correct order and with the "
+           "right length/offset (copy-back before shrinking, offset re-applied, bytes before pointer); writes into shared storage are dominated by a "
+           "uniqueness test; no handle is disposed early or twice",
     "C04": "every write to BytesMut.{ptr,len,cap} is justified (bounded by the allocation, paired with its companions, bytes moved before the pointer, "
            "non-overlap guard before copy_nonoverlapping); split halves use one cut operand; merge needs all four adjacency conjuncts; Clone never shares; "
            "the reservation helper returns false only on paths without any state write and true only through a justified cap write; request arithmetic cannot wrap",
@@ -61,6 +65,7 @@ LEVEL_NOTE = {
     "C14": "trusted: rustc type checking/trait resolution, std slice comparison and hash impls, std views (as_bytes, deref, [..]); views show the contents (C01).",
 }
 TECHNIQUE = {
+    "C01": "signature/impl-table scan of Bytes (effect property) + dominance rules for byte moves and re-basing over MIR provenance trees + token accounting",
     "C04": "per-write justification rules over MIR provenance trees and dominating guards (A8), path enumeration of the reservation helper, arithmetic taint (E1)",
     "C07": "effect reachability over the crate call graph with vtable slots expanded to all bound functions; exemptions verified by dominating guards",
     "C08": "return-value flow of the is_unique slot functions cross-checked against the take-over paths of into_mut (path summaries) + dominating-guard analysis",
